@@ -458,6 +458,36 @@ func (d *Driver) faultRunsOf(runs int, name, classFilter string) {
 	}
 }
 
+// reopenFault: a fault-free run that ends with Close, then a second writer on the same directory whose load of the
+// (only) snapshot fails once: OpenWriter must report the failure -- or recover everything -- but never come up empty.
+func (d *Driver) reopenFault() {
+	scn := d.randomScenario("reopenfault", 2, 2, true)
+	scn.Opts.KeepN, scn.Opts.NoAsyncErr = 1, false
+	scn.Readers, scn.Second = 0, false
+	work := d.prepare(&scn)
+	uid := 0
+	sched := NewPrioSched(d.Rng.Int63(), 2, 100)
+	d.crumb(scn, sched.Describe())
+	res1 := Run(d.T, scn, sched, work+"/w", &uid, nil)
+	evs := res1.Events
+	if res1.Stuck || len(evs) == 0 || evs[len(evs)-1]["ev"] != "CloseReturn" {
+		d.Emit(scn, evs, res1.Sched, map[string]any{"stuck": res1.Stuck})
+		_ = os.RemoveAll(work)
+		return
+	}
+	scn2 := scn
+	scn2.Clients = [][]BatchSpec{{{Ops: randomOps(d.Rng, allIds, true)}}}
+	scn2.Opts.Faults = []ctl.Fault{{Op: 1, Stage: "before"}} // operation 0 lists the snapshots, operation 1 loads the newest
+	sched2 := NewPrioSched(d.Rng.Int63(), 2, 100)
+	res2 := Run(d.T, scn2, sched2, work+"/w2", &uid, nil)
+	evs2 := res2.Events
+	if !res2.Stuck && len(evs2) > 0 && evs2[len(evs2)-1]["ev"] == "CloseReturn" {
+		evs2 = append(evs2, reopenAfterClose(scn2)...)
+	}
+	d.Emit(scn, append(evs, evs2...), map[string]any{"first": res1.Sched, "second": res2.Sched}, map[string]any{"second": scn2, "stuck": res2.Stuck})
+	_ = os.RemoveAll(work)
+}
+
 // crash2: run, die at a seeded operation boundary (or torn state), recover on
 // that image under the controller again, with images of the second incarnation.
 func (d *Driver) crash2() {
@@ -706,7 +736,11 @@ func (d *Driver) RunFamily(fam string, runs int) {
 			d.simple(scn, NewPrioSched(r.Int63(), 4, 150), nil)
 		}
 	case "faults":
-		d.faultRuns(runs)
+		nr := runs / 8
+		for i := 0; i < nr; i++ {
+			d.reopenFault()
+		}
+		d.faultRuns(runs - nr)
 	case "filefaults":
 		d.faultRunsOf(runs, "filefaults", "RemoveEnd")
 	case "memfaults":
